@@ -521,6 +521,9 @@ func runValCluster(sc *valScenario) (res valResult) {
 					return
 				}
 				ob = []interface{}{"code", cliCode(vc.put(op[1].(string), key, v))}
+			case "sleep":
+				time.Sleep(time.Duration(num(op[1])) * time.Millisecond)
+				ob = []interface{}{"slept"}
 			case "keys":
 				// every key of the DMap as an iterator hands it out: ["keys", path]
 				dm, err := vc.pick(op[1].(string), "")
